@@ -101,6 +101,9 @@ class MinMaxAggregator:
             if arg.ast_type not in {ASTType.Variable, ASTType.SymbolicTerm}:
                 return  # nocoverage
 
+        if any(var not in symbol.arguments for var in rest_vars + [max_var]):
+            return  # the head drops an argument of the new predicate: its atoms can not be translated back
+
         mapping = [
             (rest_vars + [max_var]).index(arg) if arg in rest_vars + [max_var] else None for arg in symbol.arguments
         ]
